@@ -37,6 +37,8 @@ def case_class(c):
         return '%s|delta=%s|off=%s' % (c['facet'], c['delta'], c['off'])
     if g == 'decbound':
         return '%s|lit=%s' % (c['facet'], c['lit'][:12] + '..' + c['lit'][-6:])
+    if g == 'nbound':
+        return 'naive-%s|delta=%s|off=%s' % (c['facet'], c['delta'], c['off'])
     if g == 'zone':
         return '%s|delta=%s|%s' % (c['facet'], c['delta'], c['how'])
     if g == 'attrreq':
@@ -103,7 +105,7 @@ def collect(ctx, with_lxml=False, families=None, positions=None, family=None):
     fams = families or sorted(d['families'])
     ok_value = {}
     for c in cases:
-        if c['valid'] and c['group'] in ('num', 'big', 'str', 'enum', 'date', 'lex', 'time', 'zone', 'decbound'):
+        if c['valid'] and c['group'] in ('num', 'big', 'str', 'enum', 'date', 'lex', 'time', 'zone', 'nbound', 'decbound'):
             ok_value.setdefault((c['group'], c['ty'], c.get('facet')), c)
     _CASES, _OKV = cases, ok_value
     order = sorted(range(len(cases)), key=lambda k: (json.dumps(V.type_of(cases[k]), sort_keys=True, default=str), k))
